@@ -35,7 +35,7 @@ def prefer_important(val, default):
 def is_marked_important(val) -> bool:
     if isinstance(val, int):
         return False
-    return str(val)[-1] == "!"
+    return str(val).endswith("!")
 
 
 def remove_important(val):
@@ -45,7 +45,8 @@ def remove_important(val):
     if isinstance(val, int):
         return val
 
-    if val[-1] == "!":
+    val = str(val)
+    if val.endswith("!"):
         return int(val[:-1])
     return int(val)
 
